@@ -326,9 +326,11 @@ func (g *GcsEmu) handleGcsMediaRequest(ctx context.Context, baseUrl HttpBaseUrl,
 			gzipReader, err := gzip.NewReader(buf)
 			if err != nil {
 				g.gapiError(w, http.StatusInternalServerError, fmt.Sprintf("failed to gunzip from %s/%s: %s", bucket, filename, err))
+				return
 			}
 			if _, err := io.Copy(w, gzipReader); err != nil {
 				g.gapiError(w, http.StatusInternalServerError, fmt.Sprintf("failed to copy+gunzip from %s/%s: %s", bucket, filename, err))
+				return
 			}
 			if err := gzipReader.Close(); err != nil {
 				g.gapiError(w, http.StatusInternalServerError, fmt.Sprintf("failed to copy+gunzip from %s/%s: %s", bucket, filename, err))
